@@ -192,8 +192,14 @@ def arm_events(facts, f, adt_suffix, ctor_name, include_aggs=(), sub_dispatch=No
     b, scrut, arms, other = sws[0]
     out = {}
     # several variants may share a target (or-patterns): group
+    # or-patterns with bindings give every alternative its own binding block and a SHARED body that none of them dominates:
+    # an arm's region is what it dominates plus what it reaches before the point where all arms have joined
+    reach = {vi: cfg.reachable(f, tgt, cut_blocks={b}) for vi, tgt in arms.items()}
+    common = set.intersection(*reach.values()) if len(reach) > 1 else set()
+    if other is not None and f.blocks[other]["t"][0] != "unr" and common:
+        common &= cfg.reachable(f, other, cut_blocks={b})
     for vi, tgt in arms.items():
-        region = shape.arm_region(f, tgt)
+        region = set(shape.arm_region(f, tgt)) | (reach[vi] - common)
         vseed = shape.variant_field_seed(adt_suffix)
         seed = vseed if extra_seed is None else (lambda p, a=vseed, b=extra_seed: list(a(p) or []) + list(b(p) or []))
         L = shape.Labels(f, region, seed)
